@@ -289,8 +289,8 @@ func genCase(jsonish bool) *rapid.Generator[Case] {
 
 func TestCheck(t *testing.T) {
 	vcommon.Main(t, "C14",
-		vcommon.S("verdict", 100000, 2400000, genCase(false), checkVerdict),
-		vcommon.S("jsonmaps", 40000, 900000, genCase(true), checkVerdict),
-		vcommon.S("malformed", 30000, 600000, genMalformed(), checkMalformed),
+		vcommon.S("verdict", 70000, 2250000, genCase(false), checkVerdict),
+		vcommon.S("jsonmaps", 30000, 1000000, genCase(true), checkVerdict),
+		vcommon.S("malformed", 20000, 750000, genMalformed(), checkMalformed),
 	)
 }
